@@ -341,6 +341,8 @@ def build(spec, salt=0, level=0, seed=0):
         kw = {}
         if spec.get("act") == "callable":
             kw["activation"] = _leaky_callable
+        if spec.get("act") == "module":  # a callable eqx.Module WITH a trainable array: its value after training / deserialisation is what counts
+            kw["activation"] = _act_module()(jnp.asarray(0.4) + 0.1 * sf)
         leaf = B.BlockAutoregressiveNetwork(key(), dim=spec["dim"], cond_dim=spec.get("cond"), depth=spec.get("depth", 1),
                                             block_dim=spec.get("bd", 2), **kw)
     if leaf is not None:
@@ -405,6 +407,26 @@ def build(spec, salt=0, level=0, seed=0):
         net = _cond_map(ci.cond_shape, T(spec["raw"]), sf + 5)
         return B.EmbedCondition(sub(0, spec["c"]), net, T(spec["raw"]))
     raise KeyError(k)
+
+
+_ACT = {}
+
+
+def _act_module():
+    """One class for the whole process (a class per call would make serialisation round trips structurally different)."""
+    if "cls" not in _ACT:
+        import equinox as eqx
+        import jax
+        import jax.numpy as jnp
+
+        class ParamActivation(eqx.Module):
+            a: jax.Array
+
+            def __call__(self, x):
+                return x + jax.nn.sigmoid(self.a) * jnp.tanh(x)  # strictly increasing, R -> R, for every value of a
+
+        _ACT["cls"] = ParamActivation
+    return _ACT["cls"]
 
 
 def _leaky_callable(x):
@@ -488,6 +510,7 @@ def all_leaves(tier="thorough"):
                 for bd in (1, 2):
                     out.append(L("BNAF", dim=d, cond=cond, depth=depth, bd=bd))
     out.append(L("BNAF", dim=2, cond=None, depth=1, bd=2, act="callable"))
+    out.append(L("BNAF", dim=2, cond=None, depth=1, bd=2, act="module"))
     return out
 
 
@@ -504,6 +527,7 @@ def rep_leaves():
         L("Affine", shape=[3], bscale=True), L("Exp", shape=[1]),
         L("BNAF", dim=2, cond=2, depth=2, bd=2),  # conditional AND >= 2 hidden layers: the two copies of the layer loop must agree
         L("Planar", dim=2, cond=None, slope=3.0),  # leaky slope above one (finding 12)
+        L("BNAF", dim=2, cond=None, depth=1, bd=2, act="module"),  # activation = callable module with its own trainable array
     ]
 
 
@@ -765,7 +789,7 @@ def _one_per_kind(specs):
         opt = (s.get("mode"), s.get("axis"), s.get("cond_axis"), (s.get("idx") or {}).get("t"), s.get("n"))
         if s["k"] == "Reshape":  # the target rank (incl. the scalar target ()) is a semantic option of Reshape
             opt += (None if s.get("shape") is None else len(s["shape"]), None if s.get("cond") is None else len(s["cond"]))
-        key = (_cls(s), opt)
+        key = (_cls(s), opt, s.get("act") if "c" not in s else None)  # a BNAF leaf with another kind of activation is another kind
         if key not in seen:
             seen.add(key)
             out.append(s)
